@@ -26,6 +26,8 @@ pub struct MemFs {
     pub written: Rc<RefCell<BTreeMap<PathBuf, Vec<u8>>>>,
     /// open_write fails for these paths
     pub unwritable: BTreeSet<PathBuf>,
+    /// the process working directory: what a relative path handed to the file system means
+    pub cwd: PathBuf,
 }
 
 impl MemFs {
@@ -103,9 +105,10 @@ impl Write for CaptureWriter {
 }
 
 /// what the operating system does with `.` and `..` (there are no symlinks here)
-fn resolve(path: &Path) -> PathBuf {
+fn resolve_from(cwd: &Path, path: &Path) -> PathBuf {
+    let joined = if path.is_absolute() { path.to_path_buf() } else { cwd.join(path) };
     let mut out: Vec<std::ffi::OsString> = Vec::new();
-    for c in path.components() {
+    for c in joined.components() {
         match c {
             std::path::Component::RootDir | std::path::Component::CurDir => {}
             std::path::Component::ParentDir => {
@@ -127,11 +130,11 @@ impl FileSystem for MemFs {
     type Writer = CaptureWriter;
 
     fn exists(&self, path: &Path) -> bool {
-        let path = &resolve(path);
+        let path = &resolve_from(&self.cwd, path);
         self.files.contains_key(path) || self.dirs.contains(path)
     }
     fn is_dir(&self, path: &Path) -> io::Result<bool> {
-        let path = &resolve(path);
+        let path = &resolve_from(&self.cwd, path);
         if self.dirs.contains(path) {
             Ok(true)
         } else if self.files.contains_key(path) {
@@ -141,7 +144,7 @@ impl FileSystem for MemFs {
         }
     }
     fn is_file(&self, path: &Path) -> io::Result<bool> {
-        let path = &resolve(path);
+        let path = &resolve_from(&self.cwd, path);
         if self.files.contains_key(path) {
             Ok(true)
         } else if self.dirs.contains(path) {
@@ -151,7 +154,7 @@ impl FileSystem for MemFs {
         }
     }
     fn open_read(&self, path: &Path) -> io::Result<Self::Reader> {
-        let path = &resolve(path);
+        let path = &resolve_from(&self.cwd, path);
         match self.files.get(path) {
             Some(spec) => Ok(ScriptReader {
                 spec: spec.clone(),
